@@ -51,9 +51,10 @@ impl<'i, 't, 'a> StepParser<'i, 't, 'a> {
             utf16_col: position.utf16_col,
         });
         let state = self.parser.state();
-        let ret = self.parser.next_including_whitespace().map(|x| x.clone());
+        let ret = self.next_including_whitespace();
         self.parser.reset(&state);
-        ret.map(|token| StepToken { token, position })
+        let _ = position;
+        ret
     }
 
     pub(crate) fn next(&mut self) -> Result<StepToken<'i>, BasicParseError<'i>> {
@@ -71,8 +72,19 @@ impl<'i, 't, 'a> StepParser<'i, 't, 'a> {
             line: position.line,
             utf16_col: position.utf16_col,
         });
-        let token = self.parser.next_including_whitespace().map(|x| x.clone())?;
-        Ok(StepToken { token, position })
+        let _ = position;
+        // skip comments one by one, so that the position is the start of the token itself
+        loop {
+            let position = self.position();
+            let token = self
+                .parser
+                .next_including_whitespace_and_comments()
+                .map(|x| x.clone())?;
+            if let Token::Comment(_) = token {
+                continue;
+            }
+            return Ok(StepToken { token, position });
+        }
     }
 
     pub(crate) fn try_parse<F, T, E>(&mut self, thing: F) -> Result<T, E>
